@@ -34,7 +34,11 @@ struct Node {
 	frg::qs_node qn;
 	int id; int agent;
 	bool rearm; // the callback registers a fresh node with the same agent (from inside run()), as a periodic reclamation task would
+	bool flush; // the callback first calls run() on its own agent again (a teardown callback flushing what else is reclaimable)
 };
+static std::function<void(int)> g_flush;   // set by the driver: run() on the given agent
+static bool g_flush_mode = false;          // await(.., rearm=true) also sets flush
+static int g_flush_count = 0;
 static std::function<void(int)> g_rearm;   // set by the driver: await_barrier(new node) on the given agent
 static int g_rearm_count = 0;
 struct NodeRef { int reg; struct Node *node; };
@@ -56,11 +60,12 @@ static void on_grace(frg::qs_node *qn) {
 	if(g_running_agent[slot] != rg.agent) g_log->problems.push_back(strf("S1b|callback of a node registered by agent %d runs %s", rg.agent, g_running_agent[slot] < 0 ? "outside any run()" : "inside another agent's run()"));
 	g_log->note(strf("cb(n%d)@%llu", rg.node, (unsigned long long)t));
 	g_node_ids.erase(it);
-	bool rearm = n->rearm; int agent = rg.agent;
+	bool rearm = n->rearm, flush = n->flush; int agent = rg.agent;
 	// the library must not touch the node any more: give the memory back right now (ASan observes any later access)
 	memset((void *)n, 0xEE, sizeof(Node));
 	free(n);
 	// (rg is not used below: the registration made here may reallocate the log)
+	if(flush && g_flush) { g_flush_count++; g_flush(agent); }
 	if(rearm && g_rearm) { g_rearm_count++; g_rearm(agent); }
 }
 
@@ -90,7 +95,7 @@ struct Ops {
 	void qs(int i) { uint64_t c = now(); ag[i].ag->quiescent_state(); uint64_t r = now(); g_log->qs[i].push_back({c, r}); g_log->note(strf("a%d.qs", i)); }
 	void barrier(int i) { sched::g_unscheduled_spins = 0; uint64_t c = now(); ag[i].ag->quiescent_barrier(); uint64_t r = now(); g_log->qb[i].push_back({c, r}); g_log->note(strf("a%d.barrier", i)); }
 	void await(int i, bool rearm = false) {
-		Node *n = (Node *)malloc(sizeof(Node)); new (n) Node(); n->id = next_node++; n->agent = i; n->rearm = rearm; n->qn.on_grace_period = on_grace;
+		Node *n = (Node *)malloc(sizeof(Node)); new (n) Node(); n->id = next_node++; n->agent = i; n->rearm = rearm; n->flush = rearm && g_flush_mode; n->qn.on_grace_period = on_grace;
 		uint64_t c = now();
 		g_node_ids[&n->qn] = {(int)g_log->regs.size(), n};
 		g_log->regs.push_back({i, n->id, c, 0});
@@ -101,7 +106,8 @@ struct Ops {
 	}
 	void run(int i) {
 		int slot = sched::t_me >= 0 ? sched::t_me : 0;
-		uint64_t c = now(); g_running_agent[slot] = i; ag[i].ag->run(); g_running_agent[slot] = -1; uint64_t r = now();
+		int outer = g_running_agent[slot]; // (run() may be entered from a callback of the same run())
+		uint64_t c = now(); g_running_agent[slot] = i; ag[i].ag->run(); g_running_agent[slot] = outer; uint64_t r = now();
 		g_log->run[i].push_back({c, r}); g_log->note(strf("a%d.run", i));
 	}
 	size_t pending_of(int i) const { size_t n = 0; for(auto &rg : g_log->regs) if(rg.agent == i && !rg.cb) n++; return n; }
@@ -169,6 +175,8 @@ static void e1_case(const char *mode, long long idx, int nagents, const std::vec
 	Ops<SeqMx> o; o.dom = dom; o.ag.resize(nagents);
 	admissible = true;
 	g_rearm = [&](int a) { o.await(a, false); }; g_rearm_count = 0;
+	// in every other case the re-arming callbacks first flush their agent: run() entered again from inside run()
+	g_flush = [&](int a) { o.run(a); }; g_flush_mode = (idx % 2 == 1); g_flush_count = 0;
 	bool ok = guarded("C11", [&] {
 		for(int i = 0; i < nagents; i++) { o.ag[i].id = i; o.create_agent(i); }
 		for(int code : opsq) {
@@ -205,7 +213,8 @@ static void e1_case(const char *mode, long long idx, int nagents, const std::vec
 	g_node_ids.clear();
 	for(auto &a : o.ag) delete a.ag;
 	delete dom;
-	g_log = nullptr; g_rearm = nullptr;
+	if(g_flush_count) count("callbacks_that_reentered_run", (uint64_t)g_flush_count);
+	g_log = nullptr; g_rearm = nullptr; g_flush = nullptr; g_flush_mode = false;
 }
 
 static void e1_exhaustive(int nagents, unsigned depth) {
